@@ -16,6 +16,10 @@ Definition concat_at (outer inner : nat) (parts : list (nat * list A)) : list A 
 Definition piece_at (outer inner n c0 len : nat) (d : list A) : list A :=
   flat_map (fun o => firstn (len * inner) (skipn (c0 * inner) (chunk (n * inner) o d))) (seq 0 outer).
 
+(* selector tuple (C02) that keeps everything except [c0, c0+len) on the axis after `pre` *)
+Definition axis_sel (pre post : list nat) (c0 len : nat) : list rsel :=
+  map full_sel pre ++ RSlice (seq c0 len) :: map full_sel post.
+
 (* consecutive extents (start, length) of pieces with the given lengths *)
 Fixpoint extents (s : nat) (lens : list nat) : list (nat * nat) :=
   match lens with [] => [] | l :: t => (s, l) :: extents (s + l) t end.
